@@ -182,6 +182,17 @@ def rules(rep):
     rep.check(ok, "Q4-step", "the element is consumed (cursor cleared, optind++) exactly when the cursor reached the terminator", (done[0].where if done else f.loc), "",
               function=f.name, construct="pack-end")
 
+    # every place where a pack is given up: at its terminator, or because an option that takes an argument takes the rest of it
+    # (an unknown character gives up nothing: parsing goes on with the next character of the pack)
+    for e in f.all_elems():
+        if not (e.is_assign and e.op == "=" and sh(norm(e.kid(0))) == "packedopts" and norm(e.kid(1)) == ("c", 0)):
+            continue
+        a = atoms_at(f, e)
+        at_end = ("==", "*packedopts", "0") in a
+        takes_rest = ("!=", "opts[opt_found].hasarg", "0") in a and ("!=", "packedopts", "0") in a
+        rep.check(at_end or takes_rest, "Q4-step", "a pack is given up only at its terminator or to an option that takes the rest as its argument", e.where,
+                  "`packedopts = NULL` here is under neither `*packedopts == 0` nor `hasarg != 0`: the remaining characters of the pack are never looked at", function=f.name, construct="pack-giveup")
+
     # ---- Q3: dash-dash and end of options ---------------------------------------------------------
     osarg = [e for e in f.all_elems() if e.is_assign and e.op == "=" and sh(norm(e.kid(0))) == "os" and sh(norm(e.kid(1))) == "argv[optind]"]
     ok = len(osarg) == 1
